@@ -9,6 +9,7 @@ package zzverif
 import (
 	"encoding/json"
 	"fmt"
+	dtpb "github.com/google/fhir/go/proto/google/fhir/proto/r4/core/datatypes_go_proto"
 	"os"
 	"os/exec"
 	"path/filepath"
@@ -391,11 +392,23 @@ var c04Battery = []string{
 	"Patient.birthDate", "Patient.meta.lastUpdated", "Patient.meta.lastUpdated.value", "Patient.birthDate.value", "Patient.meta.lastUpdated > @2020-01-01T00:00:00Z", "Patient.birthDate = @1980-02-29", "Patient.birthDate + 1 day",
 	"@2020-01-01T10:00:00 = @2020-01-01T10:00:00Z", "@2020-01-01T10:00:00+05:30 < @2020-01-01T05:00:00Z", "@2020-03-08T01:30:00-05:00 + 1 hour", "@2020-01-01T23:30:00 + 45 minutes", "@2020-01-01.toDateTime()", "@2020-01-01T10:00:00Z.toDate()", "'2020-06-01T00:00:00+02:00'.toDateTime()",
 	"@T23:30 + 45 minutes", "today() = now().toDate()", "now().toString().substring(23)", "timeOfDay().toString().length()", "%dt", "%dt.toString()", "%da + 1 month", "%pat.meta.lastUpdated.toString()",
+	// FHIR time / date / dateTime / instant elements of every precision and several zones
+	"%ftm", "%ftm.toString()", "%ftm = @T08:30:00", "%ftm < @T09:00", "%ftm + 1 hour", "%ftms.toString()", "%fd", "%fd.toString()", "%fd = @2020-01-01", "%fd + 1 day", "%fd.toDateTime()", "%fdm.toString()", "%fdt.toString()", "%fdt = @2020-01-01T10:00:00+05:30", "%fdt.toDate()", "%fdd.toString()", "%fin.toString()", "%fin > @2020-01-01T00:00:00Z",
 }
 
 func c04BatteryResults() []string {
 	pat := fixturePatient()
 	vars := progVarsFor(pat)
+	us := func(y int, mo time.Month, d, h, mi, sec, ms int, off int) int64 {
+		return time.Date(y, mo, d, h, mi, sec, ms*1e6, time.FixedZone("", off)).UnixMicro()
+	}
+	vars["ftm"] = &dtpb.Time{ValueUs: (8*3600 + 30*60) * 1e6, Precision: dtpb.Time_SECOND}
+	vars["ftms"] = &dtpb.Time{ValueUs: (23*3600+59*60+59)*1e6 + 250000, Precision: dtpb.Time_MILLISECOND}
+	vars["fd"] = &dtpb.Date{ValueUs: us(2020, 1, 1, 0, 0, 0, 0, 9*3600), Timezone: "+09:00", Precision: dtpb.Date_DAY}
+	vars["fdm"] = &dtpb.Date{ValueUs: us(2020, 3, 1, 0, 0, 0, 0, -5*3600), Timezone: "-05:00", Precision: dtpb.Date_MONTH}
+	vars["fdt"] = &dtpb.DateTime{ValueUs: us(2020, 1, 1, 10, 0, 0, 0, 19800), Timezone: "+05:30", Precision: dtpb.DateTime_SECOND}
+	vars["fdd"] = &dtpb.DateTime{ValueUs: us(2020, 1, 1, 0, 0, 0, 0, -3*3600-1800), Timezone: "-03:30", Precision: dtpb.DateTime_DAY}
+	vars["fin"] = &dtpb.Instant{ValueUs: us(2020, 6, 1, 23, 59, 59, 999, 14*3600), Timezone: "+14:00", Precision: dtpb.Instant_MILLISECOND}
 	var out []string
 	for _, src := range c04Battery {
 		e, err := fhirpath.Compile(src)
@@ -483,7 +496,7 @@ func c04GenIso(s Src) c04IsoCase {
 	var c c04IsoCase
 	names := []string{"fa", "fb", "fc"}
 	for i := 0; i < s.Range(1, 10); i++ {
-		c.Steps = append(c.Steps, c04Compile{Kind: pickOne(s, []string{"fresh", "fresh", "dup", "builtin", "experimental", "permissive", "patch", "plain", "plain", "variadic", "bad", "fresh+exp", "exp+fresh", "fresh+exp"}), Name: pickOne(s, names)})
+		c.Steps = append(c.Steps, c04Compile{Kind: pickOne(s, []string{"fresh", "fresh", "dup", "builtin", "experimental", "permissive", "patch", "plain", "plain", "variadic", "bad", "fresh+exp", "exp+fresh", "fresh+exp", "join-clash", "join-alone", "join-clash"}), Name: pickOne(s, names)})
 	}
 	return c
 }
@@ -547,13 +560,27 @@ func c04RunIso(ctx *Ctx, c c04IsoCase) {
 		}
 		return true
 	}
+	// option values are created once per name and reused by every later step: an option is a
+	// value, and what it does may depend on the Compile call it is applied to, not on its past
+	optByName := map[string]fhirpath.CompileOption{}
+	addFn := func(name string) fhirpath.CompileOption {
+		if o, ok := optByName[name]; ok {
+			return o
+		}
+		optByName[name] = compopts.AddFunction(name, c04MyFn)
+		return optByName[name]
+	}
 	for _, st := range c.Steps {
 		var err error
 		var e *fhirpath.Expression
 		g := guard(func() {
 			switch st.Kind {
+			case "join-clash":
+				e, err = fhirpath.Compile("Patient.name.join(1)", compopts.WithExperimentalFuncs(), addFn("join"))
+			case "join-alone":
+				e, err = fhirpath.Compile("Patient.name.join(1)", addFn("join"))
 			case "fresh":
-				e, err = fhirpath.Compile("Patient.name."+st.Name+"(1)", compopts.AddFunction(st.Name, c04MyFn))
+				e, err = fhirpath.Compile("Patient.name."+st.Name+"(1)", addFn(st.Name))
 			case "fresh+exp":
 				e, err = fhirpath.Compile("Patient.name."+st.Name+"(1)", compopts.AddFunction(st.Name, c04MyFn), compopts.WithExperimentalFuncs())
 			case "exp+fresh":
@@ -582,6 +609,20 @@ func c04RunIso(ctx *Ctx, c c04IsoCase) {
 			return
 		}
 		switch st.Kind {
+		case "join-clash":
+			if err == nil {
+				ctx.Fail("isolation: an experimental function can be replaced by AddFunction", strings.Join(history, "\n"))
+				return
+			}
+		case "join-alone":
+			if err != nil || e == nil {
+				ctx.Fail("isolation: a custom function named like an experimental one is refused although the experimental functions are not enabled (a failure of an earlier Compile call sticks to the option value?)", strings.Join(history, "\n"))
+				return
+			}
+			if out, eerr := e.Evaluate(fixtureInput(fixturePatient())); eerr != nil || renderColl(out) != "[Integer:1, Integer:4]" {
+				ctx.Fail("isolation: the registered function is not the one invoked", strings.Join(history, "\n")+fmt.Sprintf("\n→ %s %v", renderColl(out), eerr))
+				return
+			}
 		case "fresh", "fresh+exp", "exp+fresh":
 			if err != nil || e == nil {
 				ctx.Fail("isolation: registering a fresh function name fails (a name registered by an earlier call is still present?)", strings.Join(history, "\n"))
